@@ -22,7 +22,8 @@
 
 
 import os
-from os.path import dirname, join
+import time
+from os.path import basename, dirname, join
 from logging import DEBUG, INFO, addLevelName
 import mlzlog
 
@@ -101,13 +102,28 @@ class LogfileHandler(mlzlog.LogfileHandler):
         child.setLevel(self.level)
         return child
 
+    def _is_old_logfile(self, entry):
+        """whether <entry> is a dated log file of this handler other than the one being written"""
+        name = entry.name
+        prefix = f'{self.rootname}-'
+        if not (name.startswith(prefix) and name.endswith('.log')) or name == basename(self.baseFilename):
+            return False
+        stamp = name[len(prefix):-len('.log')]
+        try:
+            if time.strftime(self._dayfmt, time.strptime(stamp, self._dayfmt)) != stamp:
+                return False
+        except ValueError:
+            return False
+        return entry.is_file(follow_symlinks=False)
+
     def doRollover(self):
         super().doRollover()
         if self.max_days:
-            # keep only the last max_days files
+            # keep the file being written and the (max_days - 1) newest earlier log files,
+            # never touch anything else in the directory
             with os.scandir(dirname(self.baseFilename)) as it:
-                files = sorted(entry.path for entry in it if entry.name != 'current')
-            for filepath in files[:-self.max_days]:
+                files = sorted(entry.path for entry in it if self._is_old_logfile(entry))
+            for filepath in files[:max(0, len(files) - (self.max_days - 1))]:
                 os.remove(filepath)
 
 
